@@ -71,7 +71,7 @@ pub fn gen_docs(g: &GS, rng: &mut crate::rng::Rng, json: bool, n: usize) -> Vec<
   for m in &members {
     for _ in 0..2 {
       let v = gval::near_miss(m, rng, json);
-      if !json || v.is_json() {
+      if (json && v.is_json()) || (!json && gval::cbor_encodable(&v)) {
         out.push((v, "near-miss"));
       }
     }
